@@ -184,7 +184,7 @@ Choose == /\ phase = "alt"
 
 \* uniform styles: one length form, one TRUE octet, one trailer for the whole message
 Style == /\ phase = "start" /\ Styles
-         /\ \E lf \in 0..4, bo \in 0..3, tr \in 0..10 :
+         /\ \E lf \in 0..4, bo \in 0..3, tr \in 0..14 :
                /\ ch' = <<lf, bo, tr>>
                /\ PrintT(<<"ALT", ToJson([mi |-> mi, xd |-> xd, ch |-> <<lf, bo, tr>>, m |-> Msgs[mi],
                                           enc |-> EncStyleNode(Tree(Msgs[mi], xd), lf, bo, tr)])>>)
